@@ -298,6 +298,12 @@ func (sc *serverConn) checkFrameWithStream(fr *FrameHeader) error {
 		return NewGoAwayError(ProtocolError, "ping is carrying a stream id")
 	case FramePushPromise:
 		return NewGoAwayError(ProtocolError, "clients can't send push_promise frames")
+	case FrameSettings:
+		// https://httpwg.org/specs/rfc7540.html#rfc.section.6.5
+		return NewGoAwayError(ProtocolError, "settings is carrying a stream id")
+	case FrameGoAway:
+		// https://httpwg.org/specs/rfc7540.html#rfc.section.6.8
+		return NewGoAwayError(ProtocolError, "goaway is carrying a stream id")
 	}
 
 	return nil
